@@ -36,6 +36,7 @@ type Case struct {
 	Engines map[string]EngObs `json:"engines"`
 	Wasm    string            `json:"wasm"`
 	Lib     string            `json:"lib,omitempty"` // hex of a second module "lib" instantiated first (cross-module cases)
+	CloseCM bool              `json:"close_cm"`      // the CompiledModule values are closed after instantiation, before the calls (documented as safe)
 }
 
 type rec struct {
@@ -111,7 +112,19 @@ func (r *rec) NewFunctionListener(def api.FunctionDefinition) experimental.Funct
 	return nil
 }
 
-func runOn(engine string, m *c.ModSpec, bin []byte, calls [][]uint64, mask []bool, all bool, lib []byte) (eo EngObs) {
+func instantiate(ctx context.Context, rt wazero.Runtime, bin []byte, name string, closeCM bool) (api.Module, error) {
+	cm, err := rt.CompileModule(ctx, bin)
+	if err != nil {
+		return nil, err
+	}
+	mod, err := rt.InstantiateModule(ctx, cm, wazero.NewModuleConfig().WithName(name))
+	if err == nil && closeCM {
+		_ = cm.Close(ctx)
+	}
+	return mod, err
+}
+
+func runOn(engine string, m *c.ModSpec, bin []byte, calls [][]uint64, mask []bool, all bool, lib []byte, closeCM bool) (eo EngObs) {
 	defer func() {
 		if e := recover(); e != nil {
 			eo.Err = fmt.Sprint("PANIC: ", e)
@@ -136,12 +149,12 @@ func runOn(engine string, m *c.ModSpec, bin []byte, calls [][]uint64, mask []boo
 			return
 		}
 		if lib != nil {
-			if _, err := rt.InstantiateWithConfig(ctx, lib, wazero.NewModuleConfig().WithName("lib")); err != nil {
+			if _, err := instantiate(ctx, rt, lib, "lib", closeCM); err != nil {
 				eo.Err = "instantiate lib: " + err.Error()
 				return
 			}
 		}
-		mod, err := rt.InstantiateWithConfig(ctx, bin, wazero.NewModuleConfig().WithName("m"))
+		mod, err := instantiate(ctx, rt, bin, "m", closeCM)
 		if err != nil {
 			eo.Err = "instantiate: " + err.Error()
 			return
@@ -221,7 +234,7 @@ func main() {
 			}
 			hres = append(hres, ws)
 		}
-		cases[i] = Case{ID: i, Store: m.CoqStore(), HRes: hres, Calls: calls, Mask: mask, All: all, Wasm: hex.EncodeToString(bin), Engines: map[string]EngObs{}}
+		cases[i] = Case{ID: i, Store: m.CoqStore(), HRes: hres, Calls: calls, Mask: mask, All: all, Wasm: hex.EncodeToString(bin), Engines: map[string]EngObs{}, CloseCM: i%3 == 1}
 		mods[i], bins[i] = m, bin
 	}
 	// fixed deep case: a trap (and a normal return) unwinding through more than 30 listened frames
@@ -240,6 +253,9 @@ func main() {
 		calls := [][]uint64{{1, 45, 1}, {1, 60, 0}, {1, 33, 1}}
 		cases = append(cases, Case{ID: len(cases), Store: m.CoqStore(), HRes: [][]int{{32}}, Calls: calls, Mask: []bool{true, true}, All: true,
 			Wasm: hex.EncodeToString(bin), Engines: map[string]EngObs{}})
+		mods, bins, libs = append(mods, m), append(bins, bin), append(libs, nil)
+		cases = append(cases, Case{ID: len(cases), Store: m.CoqStore(), HRes: [][]int{{32}}, Calls: calls, Mask: []bool{true, true}, All: true,
+			Wasm: hex.EncodeToString(bin), Engines: map[string]EngObs{}, CloseCM: true})
 		mods, bins, libs = append(mods, m), append(bins, bin), append(libs, nil)
 	}
 	// fixed cross-module cases: a listened function calls a listened function of ANOTHER module and then returns through
@@ -294,7 +310,7 @@ func main() {
 			go func(i int, eng string) {
 				defer wg.Done()
 				defer func() { <-sem }()
-				eo := runOn(eng, mods[i], bins[i], cases[i].Calls, cases[i].Mask, cases[i].All, libs[i])
+				eo := runOn(eng, mods[i], bins[i], cases[i].Calls, cases[i].Mask, cases[i].All, libs[i], cases[i].CloseCM)
 				mu.Lock()
 				cases[i].Engines[eng] = eo
 				mu.Unlock()
